@@ -32,6 +32,7 @@ module Pos :
   val mul : positive -> positive -> positive
 
   val size_nat : positive -> nat
+
   val size : positive -> positive
 
   val compare_cont : comparison -> positive -> positive -> comparison
